@@ -165,6 +165,10 @@ func (ex *Exec) bindConst(a *Term, v uint64) {
 		if v <= mask(a.Args[0].W) {
 			ex.bindConst(a.Args[0], v)
 		}
+	case OpBvAdd:
+		if a.Args[1].IsConst() {
+			ex.bindConst(a.Args[0], (v-a.Args[1].Val)&mask(a.W))
+		}
 	}
 }
 
